@@ -92,7 +92,7 @@ def block_order(sc):
 
 def has_terminator(sc, bid):
     """A block has a terminator iff it has a non-fallthrough outgoing edge (rule of _nonterminator_instructions)."""
-    return sc.atoms[bid][-1].kind in ("jmp", "jcc", "call", "icall", "ijmp", "ret")
+    return sc.atoms[bid][-1].kind in ("jmp", "jcc", "call", "icall", "ijmp", "ret", "sys")
 
 
 def exit_blocks(sc, fname):
@@ -101,6 +101,8 @@ def exit_blocks(sc, fname):
     for (src, kind, dst, cond, direct) in sc.model.block_edges():
         if src not in bids:
             continue
+        if sc.spec.get("unlabelled_ijmp") and kind == "branch" and dst is None:
+            continue  # gtirb_functions' definition of an exit block ignores edges without a label
         if kind == "return" or (kind != "call" and dst not in bids):
             if src not in out:
                 out.append(src)
@@ -246,6 +248,10 @@ def shapes(tier):
     layouts = {"text": lambda: rewrite_shapes.text_layout("jcc:s0", annots=False),
                "call": lambda: rewrite_shapes.text_layout("call:s2", annots=False),
                "orphan": orphan_layout,
+               # terminators whose only non-fallthrough edge is a Syscall edge / an edge without a label
+               "leadgap": lambda: rewrite_shapes.leadgap_layout(annots=False),
+               "syscall": lambda: rewrite_shapes.text_layout("sys", annots=False),
+               "ijmp-nolabel": lambda: dict(rewrite_shapes.text_layout("ijmp", annots=False), unlabelled_ijmp=True),
                "nofunc": lambda: rewrite_shapes.text_layout("jcc:s0", funcs=False, annots=False)}
     positions = ["ENTRY", "EXIT", "ANYWHERE"]
     for lname, mk in layouts.items():
